@@ -73,6 +73,9 @@ shutil.copy(patch, out / 'patch.diff')
 shutil.copy(demo, out / 'demo.py')
 if (ws / 'notes.md').exists():
     shutil.copy(ws / 'notes.md', out / 'notes.md')
+ideas = json.loads(Path('/verif/tools/seed_ideas.json').read_text())
+if name in ideas:
+    meta['idea'], meta['needs'], meta['first_attempt'] = ideas[name]
 meta['confirmed'] = meta['demo_without_patch_exit'] == 0 and meta.get('demo_with_patch_exit', 0) != 0
 (out / 'meta.json').write_text(json.dumps(meta, indent=1))
 print(json.dumps(meta, indent=1))
